@@ -243,11 +243,18 @@ func WriteFile(name string, data []byte, perm os.FileMode) error {
 	return err
 }
 
+// AfterRename, when set by a scenario, is called right after a successful rename, before the renaming goroutine
+// does anything else: the state an observer can see at the instant a name is published.
+var AfterRename func(oldpath, newpath string)
+
 func Rename(oldpath, newpath string) error {
 	pre(newpath)
 	err := os.Rename(oldpath, newpath)
 	if err == nil {
 		step(newpath, "rename")
+		if f := AfterRename; f != nil {
+			f(oldpath, newpath)
+		}
 	}
 	return err
 }
